@@ -37,8 +37,8 @@ type stats struct {
 	lastAwait                                                                       string // the op before the one being interpreted was an await for this event
 	aimedBig                                                                        bool
 	// what the observers that lived while the scripts played went through (schedule dependent; labels only)
-	observers                                                                     int
-	slowObserver, paused, coalesced, coalescedAtPaused, coalescedAtomic           bool
+	observers                                                                    int
+	slowObserver, paused, coalesced, coalescedAtPaused, coalescedAtomic          bool
 	wildBeforeSync, whileDown, pauseByBound, boundHit, lateObserver, reconnected bool
 }
 
